@@ -66,7 +66,7 @@ func init() {
 				return 0
 			}
 			if tier == core.Thorough {
-				return 20000
+				return 12000
 			}
 			return 600
 		},
@@ -757,7 +757,7 @@ func run(c *core.Case) {
 		rejected := 0       // items that must make a 2.0 response a 400
 		silentInvalid := 0  // items that are invalid but need not change the status (too long exemplar labels)
 		for ei := 0; ei < nEntries; ei++ {
-			if r.IntN(7) == 0 { // an invalid series entry
+			if r.IntN(14) == 0 { // an invalid series entry
 				why := gen.Pick(r, invalidSeriesKinds)
 				e := entrySpec{raw: genInvalidRaw(r, why), invalid: why, kind: "f", meta: genMeta(r, v2)}
 				if v2 && r.IntN(3) == 0 {
@@ -791,7 +791,7 @@ func run(c *core.Case) {
 			if r.IntN(4) == 0 { // unsorted on the wire; the decoded label set is the sorted one
 				r.Shuffle(len(e.raw), func(i, j int) { e.raw[i], e.raw[j] = e.raw[j], e.raw[i] })
 			}
-			if v2 && r.IntN(12) == 0 { // series entry without samples
+			if v2 && r.IntN(30) == 0 { // series entry without samples
 				es = append(es, e)
 				rejected++
 				c.Seen("invalid_series_kind", "no-samples")
@@ -807,7 +807,7 @@ func run(c *core.Case) {
 				s := nextValue(r, ps, codecOnly)
 				st.prev = ps.prev
 				problem := ""
-				if r.IntN(6) == 0 {
+				if r.IntN(13) == 0 {
 					problem = gen.Pick(r, []string{"older-in-request", "dup-ts-in-request", "exact-dup", "older-than-stored", "dup-ts-of-stored", "invalid-histogram"})
 				}
 				floor := max(st.maxT, ps.maxT)
@@ -905,7 +905,7 @@ func run(c *core.Case) {
 				}
 				runMax := max(st.exMaxTs, ps.exMaxTs)
 				problem := ""
-				if r.IntN(6) == 0 {
+				if r.IntN(13) == 0 {
 					problem = gen.Pick(r, []string{"older-in-request", "exact-dup", "older-than-stored", "too-long", "bad-refs"})
 				}
 				switch problem {
